@@ -122,6 +122,11 @@ class HalmosBool:
         return super().__new__(cls)
 
     def __init__(self, value: AnyBool | str, *, do_simplify: bool = True):
+        # __new__ may have returned one of the TRUE / FALSE singletons: Python still calls __init__ on it,
+        # which must not overwrite the singleton with a symbolic value
+        if self is TRUE or self is FALSE:
+            return
+
         match value:
             case bool():
                 self.con_val = value
